@@ -91,7 +91,7 @@ func subHeaderGrid() mon.Sub {
 	}
 }
 
-var reasons = []string{"", "bye", "café", "€ uro", "\U0001F600", "\xff", "ab\xc3", "\xed\xa0\x80 surrogate", "\xc0\xaf overlong"}
+var reasons = []string{"", "bye", "café", "€ uro", "\U0001F600", "replacement \uFFFD character is a character", "\uFFFD", "\uFFFE\uFFFF non-characters", "\U0010FFFF", "\x00 nul", "\xff", "ab\xc3", "\xed\xa0\x80 surrogate", "\xc0\xaf overlong"}
 
 func subCloseCodes() mon.Sub {
 	return mon.Sub{
@@ -261,7 +261,7 @@ func main() {
 		Property: "C03",
 		Level:    "exploration",
 		Rule: "exhaustive: (a) Fin x Rsv(8) x OpCode(16) x (Masked flag x key bytes zero / non-zero, independently) x 7 length classes x side{none,server,client} x extended x fragmented = 86016 (header,state) pairs against the reference rule set (accept iff no rule broken; reported error must name a broken rule), " +
-			"(b) all 65536 close codes x 9 reasons (valid and invalid UTF-8) against the code classes of the statement, (c) body construction/parsing for all codes x reason lengths (0..130 for a subset in quick, for all codes in thorough), each body modified in place by the caller and built again (results must not share memory); (d) the exported classification predicates for all 256 opcode values and all 65536 status codes. " +
+			"(b) all 65536 close codes x 14 reasons (valid - incl. U+FFFD, non-characters, U+10FFFF, NUL - and invalid UTF-8) against the code classes of the statement, (c) body construction/parsing for all codes x reason lengths (0..130 for a subset in quick, for all codes in thorough), each body modified in place by the caller and built again (results must not share memory); (d) the exported classification predicates for all 256 opcode values and all 65536 status codes. " +
 			"distinct = (opcode, side, extended, fragmented, broken-rule set) / (code range, class, reason kind) classes.",
 		Assumptions: []string{"ref.BrokenRules and ref.CloseCodeClass transcribe the rule list of the property statement", "the exported ErrProtocol* values are mapped one-to-one to rules"},
 		Subs:        []mon.Sub{subPredicates(), subHeaderGrid(), subCloseCodes(), subCloseBody()},
